@@ -32,6 +32,17 @@
 (*                that reads nil leaves the socket open for ever)          *)
 (*   FixStats   - Stop accounts for the connections the registry hands to  *)
 (*                it (pinned: they are never counted as destroyed)         *)
+(*   AtomicAdd  - addConn checks the limit and inserts in ONE critical     *)
+(*                section (the code as it is).  FALSE is the check-then-   *)
+(*                act variant (limit evaluated in a critical section of    *)
+(*                its own, insert in a second one): it must violate        *)
+(*                LimitRespected - kept as an anti-vacuity mutant          *)
+(*   TakeRegistry - Stop takes the registry (l.conns = nil) while it       *)
+(*                copies it (the code as it is).  FALSE is the mutant that *)
+(*                only copies: a connection accepted before the socket is  *)
+(*                closed and registered after the copy is served, nobody   *)
+(*                closes it, Stop waits for its peer - kept as an          *)
+(*                anti-vacuity mutant for the window W_AddAfterStop        *)
 (***************************************************************************)
 EXTENDS Naturals, Integers, Sequences, FiniteSets, TLC
 
@@ -39,7 +50,7 @@ CONSTANTS H,              \* connections / peers (strings)
           Limit,          \* cfg.ConnectionLimit, 0 = unlimited
           PortMayBeBusy,  \* the port may initially be held by another process
           WithStop, WithDrain,
-          FixDone, FixPublish, FixStats,
+          FixDone, FixPublish, FixStats, AtomicAdd, TakeRegistry,
           Det             \* TRUE: a ready latch wins against the retry timer (the timer needs
                           \* 500 ms; used when behaviours are replayed on the code)
 
@@ -67,7 +78,7 @@ vars == <<srv, retried, quit, drain, done, sockOpen, lnPub, portBusy, backlog, c
 
 SrvPCs == {"notStarted", "check", "bind", "retryWait", "publish", "recheck", "accept",
            "waitConns", "closeDone", "returned"}
-HPCs == {"none", "add", "serve", "remove", "fin"}
+HPCs == {"none", "add", "add2", "serve", "remove", "fin"}
 
 TypeOK ==
   /\ srv \in SrvPCs /\ retried \in BOOLEAN
@@ -190,16 +201,37 @@ AtLimit == Limit > 0 /\ Cardinality(conns) >= Limit
 
 \* point listener.addConn (listener.go:216-232, 185-188): under the lock {registry nil -> refuse | limit -> count, refuse |
 \* register, count}; a refused connection is closed and the goroutine ends
+Refuse(h) == hs' = [hs EXCEPT ![h] = "fin"] /\ hconn' = [hconn EXCEPT ![h] = "closed"]
+Register(h) ==
+  /\ conns' = conns \cup {h} /\ cxTotal' = cxTotal + 1 /\ cxActive' = cxActive + 1
+  /\ hs' = [hs EXCEPT ![h] = "serve"]
+
 HAdd(h) ==
-  /\ hs[h] = "add"
+  /\ AtomicAdd /\ hs[h] = "add"
   /\ IF connsNil \/ AtLimit
-       THEN /\ hs' = [hs EXCEPT ![h] = "fin"] /\ hconn' = [hconn EXCEPT ![h] = "closed"]
+       THEN /\ Refuse(h)
             /\ cxRestricted' = IF ~connsNil THEN cxRestricted + 1 ELSE cxRestricted
             /\ UNCHANGED <<conns, cxTotal, cxActive>>
-       ELSE /\ conns' = conns \cup {h} /\ cxTotal' = cxTotal + 1 /\ cxActive' = cxActive + 1
-            /\ hs' = [hs EXCEPT ![h] = "serve"] /\ UNCHANGED <<hconn, cxRestricted>>
+       ELSE /\ Register(h) /\ UNCHANGED <<hconn, cxRestricted>>
   /\ UNCHANGED <<srv, retried, Latches, sockOpen, lnPub, portBusy, backlog, connsNil,
                  StopVars, DrainVars, cxDestroy>>
+
+\* check-then-act mutant, first critical section: the limit
+HAddCheck(h) ==
+  /\ ~AtomicAdd /\ hs[h] = "add"
+  /\ IF ~connsNil /\ AtLimit
+       THEN Refuse(h) /\ cxRestricted' = cxRestricted + 1
+       ELSE hs' = [hs EXCEPT ![h] = "add2"] /\ UNCHANGED <<hconn, cxRestricted>>
+  /\ UNCHANGED <<srv, retried, Latches, sockOpen, lnPub, portBusy, backlog, Registry,
+                 StopVars, DrainVars, cxTotal, cxActive, cxDestroy>>
+
+\* check-then-act mutant, second critical section: registry nil -> refuse | register
+HAddInsert(h) ==
+  /\ hs[h] = "add2"
+  /\ IF connsNil THEN Refuse(h) /\ UNCHANGED <<conns, cxTotal, cxActive>>
+                 ELSE Register(h) /\ UNCHANGED hconn
+  /\ UNCHANGED <<srv, retried, Latches, sockOpen, lnPub, portBusy, backlog, connsNil,
+                 StopVars, DrainVars, cxDestroy, cxRestricted>>
 
 \* point handler.exit (in the protocol handler; listener.go:191-201): the handler's read failed because the
 \* connection was closed by the peer or by Stop; it returns, the deferred conn.Close() runs
@@ -237,7 +269,8 @@ Stop0 ==
 
 \* point listener.Stop.swap (listener.go:282-286): lock; conns := l.conns; l.conns = nil (repaired: ln := l.ln); unlock
 Stop1 ==
-  /\ stp = "s1" /\ taken' = conns /\ conns' = {} /\ connsNil' = TRUE /\ stp' = "s2"
+  /\ stp = "s1" /\ taken' = conns /\ stp' = "s2"
+  /\ IF TakeRegistry THEN conns' = {} /\ connsNil' = TRUE ELSE UNCHANGED <<conns, connsNil>>
   /\ sln' = IF FixPublish THEN (IF lnPub THEN "set" ELSE "nil") ELSE sln
   /\ UNCHANGED <<srv, retried, Latches, sockOpen, lnPub, portBusy, backlog, hs, hconn, DrainVars, Stats>>
 
@@ -254,7 +287,7 @@ Stop2 ==
 Stop3 ==
   /\ stp = "s3" /\ stp' = "s4"
   /\ hconn' = [h \in H |-> IF h \in taken THEN "closed" ELSE hconn[h]]
-  /\ IF FixStats
+  /\ IF FixStats /\ TakeRegistry
        THEN cxDestroy' = cxDestroy + Cardinality(taken) /\ cxActive' = cxActive - Cardinality(taken)
        ELSE UNCHANGED <<cxDestroy, cxActive>>
   /\ UNCHANGED <<srv, retried, Latches, sockOpen, lnPub, portBusy, backlog, Registry, hs, taken, sln,
@@ -345,7 +378,7 @@ DrainGate ==
 -----------------------------------------------------------------------------
 ServeNext == SrvStart \/ SrvCheck \/ SrvBind \/ SrvRetry \/ SrvPublish \/ SrvRecheck
              \/ SrvAccept \/ SrvAcceptErr \/ SrvWait \/ SrvCloseDone
-HandlerNext(h) == HAdd(h) \/ HExit(h) \/ HRemove(h)
+HandlerNext(h) == HAdd(h) \/ HAddCheck(h) \/ HAddInsert(h) \/ HExit(h) \/ HRemove(h)
 StopNext == Stop0 \/ Stop1 \/ Stop2 \/ Stop3 \/ Stop4
 DrainNext == Drain0 \/ Drain1
 
@@ -394,7 +427,7 @@ LimitRespected == Limit > 0 => Cardinality(conns) <= Limit /\ Cardinality(Servin
 
 \* a connection is refused only while stopping or when Limit connections are registered
 UnderLimitServed ==
-  [][\A h \in H : (hs[h] = "add" /\ hs'[h] = "fin") => (connsNil \/ AtLimit)]_vars
+  [][\A h \in H : (hs[h] \in {"add", "add2"} /\ hs'[h] = "fin") => (connsNil \/ AtLimit)]_vars
 
 \* connection statistics (C20): balanced whenever the listener is quiescent
 Quiescent == stp \in {"idle", "ret"} /\ \A h \in H : hs[h] \in {"none", "fin"}
@@ -417,7 +450,7 @@ W_DrainBetweenBindAndPublish == dln = "nil" /\ srv \in {"bind", "publish"} /\ ~p
 W_DrainThenStop == drn = "ret" /\ stp = "s0"
 W_DrainWithActiveConns == drn = "d1" /\ conns # {}
 W_LimitReached == \E h \in H : hs[h] = "add" /\ ~connsNil /\ AtLimit
-W_AddAfterStop == \E h \in H : hs[h] = "add" /\ connsNil
+W_AddAfterStop == \E h \in H : hs[h] = "add" /\ stp \in {"s2", "s3", "s4"}
 W_BacklogAtClose == stp = "s2" /\ backlog # <<>> /\ lnPub
 
 WindowNames == <<"W_StopBeforeServe", "W_StopBeforeBind", "W_StopDuringRetry",
